@@ -215,6 +215,25 @@ PROPS = {
 
 NOT_YET = {}
 
+import c03  # noqa: E402
+PROPS["C03"] = dict(
+    runner=c03.runner, aspects=["verdict"], n=(0, 0),
+    rule="exhaustive enumeration of single-type descriptions over built-in field types on the bound stated in "
+         "`bound`, plus seeded random larger descriptions; every description is judged by the real pyxis "
+         "(in-process API), by the Coq spec realisableb and by the arithmetic core acceptb (both extracted), and a "
+         "sample of 3000 also by the full model; non-trivial = >= 1 field and (accepted, or an address or a size is written)",
+    level_text="Proved in Coq for all field lists, numeric values and pointer sizes: the arithmetic core of the acceptance "
+               "decision (C03Core.accept: resolve_regions' placement, the size padding and the alignment checks, incl. the power-of-two "
+               "check) accepts exactly the realisable descriptions (C03Core.realisable, written from the property text). "
+               "The implementation's own verdict is compared with the *spec* (realisableb, reflected in Coq) on every "
+               "enumerated description -- exhaustively on the stated small scope -- so the check does not go through the model at all for the iff; "
+               "the refinement model -> core is checked on a sample, not proved (theorem name carries _partial).",
+    level_note="Trusted: Coq kernel; the spec C03Core.realisable as the reading of the property text (two interpretations fixed in DESIGN.md section 7: "
+               "zero-length arrays keep their place but are not members; 'sole member' counts gaps); sizes/alignments of built-in types per pointer width are inputs "
+               "computed by tools/c03.py; field alignments are powers of two (wf_fields).",
+    technique="Coq proof of accept <-> realisable on the arithmetic core; exhaustive small-scope + random comparison of the real verdict with the reflected spec",
+)
+
 PROPS["C01"].update(
     level_text="Proved in Coq for every registry state and every description: when the model's type_build accepts, the emitted "
                "struct laid out by the Rust Reference's repr(C)/packed algorithm (RustLayout.v) has every region at the prefix "
